@@ -112,15 +112,16 @@ var (
 )
 
 type CmdGen struct {
-	rng *rand.Rand
-	gen int
+	rng  *rand.Rand
+	gen  int
+	last map[string]Cmd // last deploy command generated per service
 	// optimistic model, only to steer generation towards meaningful commands
 	exists  map[string]bool
 	rollout map[string]bool
 }
 
 func NewCmdGen(rng *rand.Rand) *CmdGen {
-	return &CmdGen{rng: rng, exists: map[string]bool{}, rollout: map[string]bool{}}
+	return &CmdGen{rng: rng, exists: map[string]bool{}, rollout: map[string]bool{}, last: map[string]Cmd{}}
 }
 
 func (g *CmdGen) targets(svc, slot string) []string {
@@ -181,6 +182,42 @@ func (g *CmdGen) Deploy(svc string) Cmd {
 	if rng.IntN(3) == 0 {
 		c.LogReq, c.LogResp = []string{"x-multi", "User-Agent"}, []string{"X-Target"}
 	}
+	g.last[svc] = c
+	return c
+}
+
+// Tweak generates a redeploy of svc that repeats its last deploy with new targets and exactly one
+// option changed (what an operator does when adjusting a single setting).
+func (g *CmdGen) Tweak(svc string) Cmd {
+	prev, ok := g.last[svc]
+	if !ok {
+		return g.Deploy(svc)
+	}
+	c := prev
+	c.Targets = g.targets(svc, "a")
+	switch g.rng.IntN(10) {
+	case 0:
+		c.Fwd = !c.Fwd
+	case 1:
+		c.Strip = !c.Strip
+	case 2:
+		c.BufReq = !c.BufReq
+	case 3:
+		c.BufResp = !c.BufResp
+	case 4:
+		c.TargetTO = map[time.Duration]time.Duration{time.Second: 30 * time.Second, 30 * time.Second: time.Second}[c.TargetTO]
+	case 5:
+		c.HCPath = map[string]string{"/up": "/health", "/health": "/up"}[c.HCPath]
+	case 6:
+		c.HCIv = map[time.Duration]time.Duration{time.Second: 2 * time.Second, 2 * time.Second: time.Second}[c.HCIv]
+	case 7:
+		c.MaxMem = map[int64]int64{1 << 20: 64, 1000: 1 << 20, 64: 1000}[c.MaxMem]
+	case 8:
+		c.MaxReq = map[int64]int64{0: 2000, 2000: 100000, 100000: 0}[c.MaxReq]
+	case 9:
+		c.HCTO = map[time.Duration]time.Duration{500 * time.Millisecond: 5 * time.Second, 5 * time.Second: 500 * time.Millisecond}[c.HCTO]
+	}
+	g.last[svc] = c
 	return c
 }
 
@@ -197,6 +234,9 @@ func (g *CmdGen) Next() Cmd {
 	k := pick(rng, kinds)
 	switch k {
 	case "deploy":
+		if g.exists[svc] && rng.IntN(2) == 0 {
+			return g.Tweak(svc)
+		}
 		g.exists[svc] = true
 		return g.Deploy(svc)
 	case "rollout-deploy":
@@ -385,8 +425,17 @@ func Observe(w *World, p *Proxy, tag string, full bool) map[string]string {
 			continue
 		}
 		for _, ck := range cfgCookies {
-			do("COOKIE "+ck+" "+h, Req{Host: h, Path: "/api/c", Hdr: [][2]string{{"Cookie", "kamal-rollout=" + ck}}}, func(r *Resp) string {
-				return fmt.Sprintf("%d gen=%s", r.Status, genTag(r.Target))
+			do("COOKIE "+ck+" "+h, Req{Host: h, Path: "/api/c", Hdr: [][2]string{{"Cookie", "kamal-rollout=" + ck}, {"X-Forwarded-For", "4.3.2.1"}, {"X-Forwarded-Proto", "gopher"}}}, func(r *Resp) string {
+				return fmt.Sprintf("%d gen=%s uri=%s xff=%s xfp=%s", r.Status, genTag(r.Target), r.Header.Get("X-Echo-Uri"), r.Header.Get("X-Echo-Xff"), r.Header.Get("X-Echo-Xfp"))
+			})
+		}
+		for _, ck := range cfgCookies[:2] {
+			// the rollout side must show the same buffering limits and target timeout too
+			do("COOKIE-POST "+ck+" "+h, Req{Method: "POST", Host: h, Path: "/api/p", Body: make([]byte, 3000), Hdr: [][2]string{{"Cookie", "kamal-rollout=" + ck}}}, func(r *Resp) string {
+				return fmt.Sprintf("%d gen=%s len=%s", r.Status, genTag(r.Target), r.Header.Get("X-Echo-Len"))
+			})
+			do("COOKIE-SLOW "+ck+" "+h, Req{Host: h, Path: "/api/slow", Lat: 1500*time.Millisecond + OffTarget, Hdr: [][2]string{{"Cookie", "kamal-rollout=" + ck}}}, func(r *Resp) string {
+				return fmt.Sprintf("%d gen=%s took=%v", r.Status, genTag(r.Target), (r.Done - r.Sent).Round(100*time.Millisecond))
 			})
 		}
 		for _, sz := range []int{1000, 3000} {
